@@ -546,3 +546,15 @@ CASES += [
  dict(id='shared-apply-wrong-neutral', kind='fire', file=B, patch='bn13-01.diff', old='            (BDD::True | BDD::False, _) => Rc::clone(&b),', new='            (BDD::True | BDD::False, _) => Rc::clone(&a),', expect={'C03': 'S'}, control=False),
  dict(id='count-ladder-wrong-step', kind='fire', file=B, patch='bn13-03.diff', old='Self::Down => n - 1,', new='Self::Down => n - 2,', expect={'C05': 'S'}, control=False),
 ]
+
+CASES += [
+ dict(id='parsetree-ite-labels-swapped', kind='fire', file=PIO, old='                SymbolicBDD::Ite(c, t, e) => {', new='                SymbolicBDD::Ite(c, e, t) => {', expect={'C14': 'labels of Ite'}),
+ dict(id='parsetree-label-list-unique', kind='fire', file=PIO, old='v.iter().map(|s| s.name.as_ref()).cloned().join(", ")', new='v.iter().unique().map(|s| s.name.as_ref()).cloned().join(", ")', expect={'C14': 'X7'}),
+ dict(id='perf-report-on-stdout', kind='fire', file=M, old='    eprintln!("Runtime report for {} iterations:", results.len());', new='    println!("Runtime report for {} iterations:", results.len());', expect={'C10': 'X9'}),
+ dict(id='clique-vertices-first-column-only', kind='fire', file=C, old='        vertices.insert(edge[1].to_string());', new='        vertices.insert(edge[0].to_string());', expect={'C16': 'vertex set'}),
+ dict(id='clique-emptiness-of-wrong-list', kind='fire', file=C, old='''            if edges_complement.is_empty() {
+                "  true".to_string()''', new='''            if edges.is_empty() {
+                "  true".to_string()''', expect={'C16': 'empty constraint block'}),
+ dict(id='get-hash-by-address', kind='fire', file=B, old='        self.hash(&mut s);', new='        (self as *const Self).hash(&mut s);', expect={'C02': 'structural hash'}),
+ dict(id='export-free-vars-only', kind='fire', file=M, old='let mut ordered_variables = input_parsed.vars.clone();', new='let mut ordered_variables = input_parsed.free_vars.clone();', expect={'C09': '-r', 'C11': '-r'}),
+]
